@@ -20,7 +20,8 @@ Prop  (the property's own clauses, evaluated on the implementation's outputs)
       and the equilibrated system `|B_eq - op(A_eq) X_eq| <= g(4n+6) (..)|X_eq| + g(n+1)|B_eq|`, where
       `X_eq = X / C` (resp. `X / R`) is formed exactly, `B_eq`, `A_eq` are B and A on exit and `s` is the
       factor that was applied to B (x4 for complex data).  With refinement on, a row may instead meet
-      the componentwise backward error that the driver itself reports (`2 berr + g(n+3)`).
+      the componentwise backward error that the driver itself reports (`2 berr + g(n+3)`), where `berr` is
+      capped at four times the worst row of the factor-derived bound expressed as a backward error.
 Corr  `equed`, `R`, `C`, A and B on exit against the glue model `Gssvx.gssvx` (gsequ + laqgs on A on
       entry, scaling of B) run at the case's arithmetic type, bit for bit (R, C untouched when
       Equil = NO).
@@ -154,7 +155,24 @@ def residual (S : Sys) (op : Op) : Option String × Bool × Bool := Id.run do
   for r in List.range S.nrhs do
     let xeq : Array Q := (Array.range n).map fun j =>
       let x := S.X[j + r * S.ldx]!; let s := S.sX[j]!; (⟨x.re / s, x.im / s⟩ : Q)
-    let berr := S.berr.getD r 0
+    -- the backward error the driver reports is accepted in place of the factor-derived bound only up to (four
+    -- times) the worst row of that bound expressed as a backward error: a refined X whose reported error is
+    -- larger than anything the factors allow for is not excused by the report
+    let mut betaMax : Rat := 0
+    for i in List.range n do
+      let mut wsum0 : Rat := 0
+      let mut dsum0 : Rat := 0
+      for j in List.range n do
+        let xe := xeq[j]!
+        wsum0 := wsum0 + wEntry S op i j * qabs xe
+        dsum0 := dsum0 + qabs (opEntry op S.A1 i j) * qabs xe
+      let be0 := qabs S.B1[i + r * S.ldb]!
+      let den := dsum0 + be0
+      if den > 0 then
+        let b := (g1e * wsum0 + g2e * be0) / den
+        if b > betaMax then betaMax := b
+    let berrRep := S.berr.getD r 0
+    let berr := if berrRep ≤ 4 * betaMax then berrRep else 4 * betaMax
     for i in List.range n do
       let mut se : Q := 0      -- (op(A1) X_eq)_i
       let mut so : Q := 0      -- (op(A0) X)_i
